@@ -122,7 +122,7 @@ func (c *Ctx) report(fn *ssa.Function, pos, construct, msg string, und bool, wit
 	}
 	f := Finding{
 		Rule: c.Rule.ID, Key: c.Rule.ID + "|" + fname + "|" + construct,
-		Pos: pos, Func: fname, Msg: msg, Props: append([]string(nil), c.Rule.Props...),
+		Pos: pos, Func: fname, Msg: msg, Props: c.attribute(fn, append([]string(nil), c.Rule.Props...)),
 		Undecided: und, Witness: witness, Config: c.P.Config,
 	}
 	v := "VIOLATION"
